@@ -260,6 +260,45 @@ CHECKS["C17"] = (
 NOT_YET = {}
 
 
+# what the later rounds added to each check (DESIGN.md 13.7-13.9)
+LATER = {
+    "C01": "negation worlds, phrases at the edge of their slop, nested parent/child queries on random and on "
+           "family-shaped indexes (groups of a parent and its children).",
+    "C02": "the quick tier covers every transaction shape (CLEAR, delete-only, cancel, loose segments ...), one of "
+           "them at every storage-operation boundary.",
+    "C03": "storages without mmap, snapshots first read after later commits merged their segments away, a staged "
+           "reader-open race (a merging commit runs inside the reader's first segment open), a failed open tolerated "
+           "only after several lost races; rich probes (sorted, grouped, by-key lookups) of every held searcher.",
+    "C04": "with-blocks left by KeyboardInterrupt / SystemExit / GeneratorExit / a custom BaseException, each followed "
+           "by an immediate writer; AsyncWriter and delete_by_query scenarios; a forked child outliving the writer.",
+    "C05": "a rank regime (TopPrefixOK) for every weighting model and final() hook, stepped posting lists, positional "
+           "queries over conjunctions with span-less blocks, DisjunctionMax tie-break, excluded unions.",
+    "C06": "other writer front-ends as the last partition, a partition imported with add_reader(), long fields, a "
+           "field removed, optimised away and added again; per-token boosts and vectors in another format.",
+    "C07": "schema operations, delete_by_query / delete_document incl. restoring (delete=False), with-blocks left by "
+           "non-Exception exits, reopened index handles.",
+    "C08": "column-only fields of every column type, a directly written segment with > 256 reference values, "
+           "_stored_ overrides, column-less segments, sorting.add_sortable().",
+    "C10": "term iteration (terms_from, iter_field/prefix, most_frequent_terms), per-token boosts in the Frequency / "
+           "Positions / Characters formats, vectors in another format than the postings, vector_as().",
+    "C11": "nested parent/child matchers incl. an exhaustive (position, target) skip sweep, negations of rare terms, "
+           "stepped lists.",
+    "C12": "threshold sweeps, 2048-document windows of the array union, stepped lists, span matchers over "
+           "conjunctions with span-less blocks, a 20 s deadline per matcher call.",
+    "C13": "FieldType.parse_range incl. DATETIME; ranges typed as partial dates (periods, exclusive bounds, leap "
+           "years) through parse_range and the query parser.",
+    "C14": "FacetMap views, collapse order, collapsed counts, Results operations, date range facets, collapsing under "
+           "reverse=True, posting-backed and reversed group facets, ColumnQuery, heap-only worlds for top-k collapse.",
+    "C15": "twins differing in one attribute (Sequence, FuzzyTerm), nested queries, immutability of the original.",
+    "C16": "GtLtPlugin comparisons, reconfigured parsers, range bounds around the keyword TO (letters t and o).",
+    "C17": "n-gram variants, HTML escaping of highlights, cache sizes, empty values, shingle offsets.",
+    "C18": "CLEAR through a waiting AsyncWriter, a document arriving during a BufferedWriter commit, a delete-only "
+           "BufferedWriter.commit() seen by other readers, term statistics of buffered documents read twice.",
+    "C19": "Searcher.correct_query, completeness of uncut suggestion lists, spelling words of stemmed fields, the "
+           "same FuzzyTerm results in one segment and in three.",
+}
+
+
 def build():
     props = [json.loads(l) for l in open(os.path.join(ROOT, "properties.jsonl"))]
     checks = []
@@ -268,6 +307,8 @@ def build():
         pid = p["id"]
         if pid in CHECKS:
             cat, text, ref, note, tech = CHECKS[pid]
+            if pid in LATER:
+                text = text + " Added later (DESIGN.md 13.7-13.9): " + LATER[pid]
             checks.append({
                 "property_id": pid,
                 "quick_cmd": "./check %s --tier quick" % pid,
